@@ -30,7 +30,7 @@ func init() {
 
 func runC14(x *Ctx) {
 	x.C.Rule("C14.R1", "tokenize partitions the input: no tail is dropped", 3)
-	x.C.Rule("C14.R2", "each token yields exactly one segment printing as that token, or an error; slice tokens have exactly two parts; quoted lookups are fields; the whole token is examined; field names verbatim; printing appends the parsed texts", 9)
+	x.C.Rule("C14.R2", "each token yields exactly one segment printing as that token, or an error; slice tokens have exactly two parts; quoted lookups are fields; the whole token is examined; field names verbatim; printing appends the parsed texts; no new reason to refuse; no bypass of the token loop", 11)
 	x.C.Rule("C14.R3", "policy tuple positions and arities agree between decoder and encoder; data values are kept verbatim", 8)
 
 	if f := x.fn("C14.R1", selPkg+"tokenize"); f != nil {
@@ -369,6 +369,33 @@ func parseAppendRule(x *Ctx, f *ssa.Function) {
 		}
 	}
 	x.C.Obl("C14.R2", "returns-all:Parse", x.pos(f), "after the last token Parse returns the accumulated selector", okRet, "")
+	// and nothing else answers for it: a selector is handed out only by the path that went through the token loop
+	// (a fast path that builds segments on its own escapes every rule above)
+	{
+		badB := ""
+		for _, p := range ps {
+			if p.End != paths.EndReturn || p.InBlock(l.Header) || len(p.Results()) == 0 {
+				continue
+			}
+			if o, _ := p.ErrorOutcome(); o == paths.Failure {
+				continue
+			}
+			// the two literal selectors "." and ".?" are answered on the spot: the whole input equals a constant
+			whole := false
+			for _, fc := range p.Facts {
+				if fc.Pol && fc.Atom.Op == "eq" && len(fc.Atom.Args) == 2 {
+					a, b := fc.Atom.Args[0], fc.Atom.Args[1]
+					if (a.String() == "arg0" && b.Op == "const") || (b.String() == "arg0" && a.Op == "const") {
+						whole = true
+					}
+				}
+			}
+			if r := p.Results()[0]; r != nil && !r.IsNil() && !whole {
+				badB += x.P.Pos(p.Ret.Pos()) + ": Parse returns " + firstLines(r.String(), 1) + " without going through the token loop\n"
+			}
+		}
+		x.C.Obl("C14.R2", "no-bypass:Parse", x.pos(f), "every selector Parse returns comes out of the loop over the tokens", badB == "", dedupLines(badB))
+	}
 	// the name of a field segment is a contiguous piece of the token: sub-slices (and the removal of the optional
 	// markers / of the leading dot) only. A trimming function with a cut set, a replacement, a case change would
 	// make two different quoted keys select the same field.
@@ -407,6 +434,43 @@ func parseAppendRule(x *Ctx, f *ssa.Function) {
 			})
 		}
 		x.C.Obl("C14.R2", "field-name-verbatim:Parse", x.pos(f), "the name of a field segment is a contiguous piece of its token", badF == "" && nF > 0, dedupLines(badF))
+	}
+	// closed world: Parse refuses a text only for the reasons it has today - empty, no leading '.', a second identity
+	// in a row ('..'), a segment no pattern matches, a colon in a quoted name, a number strconv refuses or that
+	// is outside the safe range. What String() prints for a parsed selector is handed to Parse again when a policy
+	// is read back: a new reason to refuse can refuse the library's own output.
+	{
+		badR, nR := "", 0
+		for _, p := range ps {
+			if p.End != paths.EndReturn {
+				continue
+			}
+			if o, _ := p.ErrorOutcome(); o == paths.Success || len(p.Facts) == 0 {
+				continue
+			}
+			nR++
+			last := p.Facts[len(p.Facts)-1]
+			a := last.Atom.String()
+			okR := false
+			switch {
+			case strings.Contains(a, "strconv."):
+				okR = true
+			case strings.Contains(a, "(*regexp.Regexp).MatchString") && !last.Pol:
+				okR = true
+			case strings.Contains(a, "segment).Identity") && last.Pol, strings.HasSuffix(a, ".identity") && last.Pol:
+				okR = true
+			case strings.Contains(a, "len(arg0)"):
+				okR = true
+			case strings.Contains(a, "strings.Contains") && strings.Contains(a, `const(":")`), strings.Contains(a, "strings.IndexByte") && strings.Contains(a, "const(58)"), strings.Contains(a, "strings.Count") && strings.Contains(a, `const(":")`):
+				okR = true
+			case strings.Contains(a, "arg0[const(0)]"), strings.Contains(a, "strings.HasPrefix](arg0,"):
+				okR = true
+			}
+			if !okR {
+				badR += fmt.Sprintf("%s: Parse refuses a selector on %s: not one of the reasons it had\n", x.P.Pos(p.Ret.Pos()), last)
+			}
+		}
+		x.C.Obl("C14.R2", "no-other-rejection:Parse", x.pos(f), "Parse refuses a text only for: empty, no leading '.', '..', unmatched segment, colon in a quoted name, bad or out-of-range number", badR == "" && nR >= 8, firstLines(dedupLines(badR), 10))
 	}
 	// the whole token is looked at: the text that is classified is the token minus a suffix of optional markers
 	// (HasSuffix / TrimRight / TrimSuffix with "?"); a function that cuts the token somewhere else (Cut, Split,
